@@ -279,7 +279,24 @@ def run_check(pid, tier, replay_path=None):
     # 2. proof audit
     aud = audit(pid)
     if build_broken:
-        aud["problems"].append("lake build failed: " + out[-1500:])
+        # name the obligations that no longer check (the error lines of the build), before anything else
+        errs = [l.strip() for l in out.split("\n") if l.startswith("error:") and ".lean:" in l]
+        failed = sorted(set(re.findall(r"(GenProps/[A-Za-z0-9_]+\.lean:\d+)", out)))
+        names = []
+        for f in failed:
+            fn, ln = f.rsplit(":", 1)
+            try:
+                src = open(os.path.join(core.LEAN_DIR, fn), encoding="utf-8").read().split("\n")
+                k = int(ln) - 1
+                while k >= 0 and not src[k].startswith("theorem "):
+                    k -= 1
+                if k >= 0:
+                    names.append(src[k].split()[1])
+            except Exception:  # noqa: BLE001
+                pass
+        aud["problems"] = ["theorems over the regenerated data that no longer hold: %s" % ", ".join(sorted(set(names)) or ["(see build output)"]),
+                           "lake build failed: " + " | ".join(errs[:6])[:1500]] + \
+            [w for w in aud["problems"] if "no axiom report" not in w]
     hits = forbidden_tokens()
     if hits:
         aud["problems"] += ["forbidden token: " + h for h in hits]
